@@ -1470,7 +1470,7 @@ pub fn run(args: Args) {
     run.extra("alphabet", json!({"non_fault": NONFAULT.iter().map(|s| format!("{s:?}")).collect::<Vec<_>>(), "faults": FAULTS.iter().map(|s| format!("{s:?}")).collect::<Vec<_>>()}));
     let scripts = &scripts;
     let lh = &local_hash;
-    let random_scripts: u64 = tier.pick(3_000, 60_000);
+    let random_scripts: u64 = tier.pick(3_000, 40_000);
     let acct_cases: u64 = tier.pick(600, 6_000);
     run.parallel(args.workers, |w, n| {
         let mut acc = Acc::new();
@@ -1553,7 +1553,7 @@ pub fn run(args: Args) {
 
     run.extra("daemon_part_wall_s", json!(run.elapsed_s()));
     // ---- fallback part
-    let fb_cases: u64 = tier.pick(6_000, 120_000);
+    let fb_cases: u64 = tier.pick(6_000, 80_000);
     run.parallel(args.workers, |w, n| {
         let mut acc = Acc::new();
         let mut rng = Rng::new(kvcore::rng::mix(seed, w as u64, 4343));
